@@ -122,8 +122,13 @@ type Check struct {
 		sync.Mutex
 		m map[uint64]struct{}
 	}
-	Deadline time.Time // internal deadline; when hit, Exhaustive=false and exit 0
-	hitCap   atomic.Bool
+	known      []*KnownFinding
+	knownOnce  sync.Once
+	knownHits  map[*KnownFinding]int
+	knownFirst map[*KnownFinding]Failure
+	dropped    int
+	Deadline   time.Time // internal deadline; when hit, Exhaustive=false and exit 0
+	hitCap     atomic.Bool
 }
 
 // FamilyStat is reported per family in the evidence.
@@ -213,11 +218,30 @@ func (c *Check) AddFamily(name string, cases, nontrivial uint64) {
 	c.mu.Unlock()
 }
 
-// Fail records a violating case.
+// Fail records a violating case. Cases that match a listed known finding are only counted
+// (the simplest one is kept), so that an unlisted violation can never be crowded out.
 func (c *Check) Fail(f Failure) {
+	c.knownOnce.Do(func() {
+		c.known = LoadKnown(c.ID)
+		c.knownHits = map[*KnownFinding]int{}
+		c.knownFirst = map[*KnownFinding]Failure{}
+	})
+	for _, k := range c.known {
+		if k.matches(&f) {
+			c.mu.Lock()
+			c.knownHits[k]++
+			if prev, ok := c.knownFirst[k]; !ok || f.Order < prev.Order || f.Order == prev.Order && len(f.Input) < len(prev.Input) {
+				c.knownFirst[k] = f
+			}
+			c.mu.Unlock()
+			return
+		}
+	}
 	c.mu.Lock()
 	if len(c.failures) < 200000 {
 		c.failures = append(c.failures, f)
+	} else {
+		c.dropped++
 	}
 	c.mu.Unlock()
 }
@@ -302,7 +326,12 @@ type evidence struct {
 // Finish classifies failures against known findings, writes replay artefacts and the
 // evidence file, prints the protocol lines and returns the process exit code.
 func (c *Check) Finish() int {
-	known := LoadKnown(c.ID)
+	c.knownOnce.Do(func() {
+		c.known = LoadKnown(c.ID)
+		c.knownHits = map[*KnownFinding]int{}
+		c.knownFirst = map[*KnownFinding]Failure{}
+	})
+	known := c.known
 	sort.SliceStable(c.failures, func(i, j int) bool {
 		a, b := c.failures[i], c.failures[j]
 		if a.Family != b.Family {
@@ -325,31 +354,22 @@ func (c *Check) Finish() int {
 			fh.Close()
 		}
 	}
-	knownHits := map[*KnownFinding]int{}
-	knownFirst := map[*KnownFinding]*Failure{}
+	knownHits := c.knownHits
 	var unknown []*Failure
 	for i := range c.failures {
-		f := &c.failures[i]
-		matched := false
-		for _, k := range known {
-			if k.matches(f) {
-				if knownHits[k] == 0 {
-					knownFirst[k] = f
-				}
-				knownHits[k]++
-				matched = true
-				break
-			}
-		}
-		if !matched {
-			unknown = append(unknown, f)
-		}
+		unknown = append(unknown, &c.failures[i])
 	}
+	knownCases := 0
 	for _, k := range known {
 		if n := knownHits[k]; n > 0 {
+			knownCases += n
+			first := c.knownFirst[k]
 			fmt.Printf("KNOWN-FINDING: property=%s %s [witness %s; %d case(s) of this run, first: %q %s]\n",
-				c.ID, k.What, k.Witness, n, trunc(knownFirst[k].Input, 120), knownFirst[k].Config)
+				c.ID, k.What, k.Witness, n, trunc(first.Input, 120), first.Config)
 		}
+	}
+	if c.dropped > 0 {
+		fmt.Printf("NOTE: %d further failing cases were not stored (more than 200000 unlisted failures)\n", c.dropped)
 	}
 	// Group unknown failures by (family, kind); print the simplest of each group.
 	type gk struct{ fam, kind string }
@@ -383,7 +403,7 @@ func (c *Check) Finish() int {
 		fmt.Printf("NOTE: property=%s internal deadline hit; exhaustive=false\n", c.ID)
 	}
 	fmt.Printf("SUMMARY property=%s tier=%s evaluations=%d distinct_nontrivial=%d violations=%d known_finding_cases=%d exhaustive=%v wall=%.1fs\n",
-		c.ID, c.Tier, c.evals.Load(), c.nontrivialCount(), len(unknown), len(c.failures)-len(unknown), c.Exhaustive, time.Since(c.start).Seconds())
+		c.ID, c.Tier, c.evals.Load(), c.nontrivialCount(), len(unknown), knownCases, c.Exhaustive, time.Since(c.start).Seconds())
 	if len(unknown) > 0 {
 		return 1
 	}
